@@ -181,7 +181,7 @@ def gen(rnd, *, core=False, res_choices=(60, 60, 30, 15), subslot=True, alap=Non
         leaves=True, nested=True, pins=True, ntasks=(2, 8), aligned=True, gaps=True, onstart=True, alts=False,
         crossmid=True, nres=(1, 4), special_start=0.3, weeks=None, days=None, tasklimits=False, odd_zones=False,
         effs=None, max_depth=3, overrun=False, milestones=0.1, single_day_leaves=True, groups=True, prios=0.4,
-        contention=False, equal_team_eff=True, group_p=0.3):
+        contention=False, equal_team_eff=True, group_p=0.3, projhours=True):
     m = {}
     res = rnd.choice(res_choices)
     m["res"] = res
@@ -277,6 +277,20 @@ def gen(rnd, *, core=False, res_choices=(60, 60, 30, 15), subslot=True, alap=Non
                 m["groups"].append(sib)
                 for r in outside:
                     r["group"] = "sib" if rnd.random() < 0.7 else "org"
+    if leaves and not core:
+        # absences declared one level up: on the shift a resource names, on a resource group (its members inherit them
+        # even when they declare absences of their own)
+        for sid in sorted(shifts):
+            if rnd.random() < 0.2:
+                s = base + timedelta(days=rnd.randrange(0, max(2, min(14, span_days))))
+                m.setdefault("shift_leaves", {})[sid] = [(s, None) if rnd.random() < 0.5 else (s, s + timedelta(days=rnd.randint(1, 3)))]
+        for g in m["groups"]:
+            if rnd.random() < 0.3:
+                s = base + timedelta(days=rnd.randrange(0, max(2, min(14, span_days))))
+                g["leaves" if rnd.random() < 0.5 else "vacs"] = [(s, None) if rnd.random() < 0.5 else (s, s + timedelta(days=rnd.randint(1, 2)))]
+    if projhours and not core and rnd.random() < 0.15:
+        # working hours declared in the project header: the default for every resource without hours of its own
+        m["proj_hours"] = gen_shift_specs(rnd, res, aligned=aligned, crossmid=False) or [(0, 4, [(8 * 60, 12 * 60), (13 * 60, 17 * 60)])]
     if leaves and rnd.random() < 0.3:
         vs = []
         for _ in range(rnd.randint(1, 2)):
@@ -497,8 +511,16 @@ def gap_text(mins):
     return "%dmin" % mins
 
 
+def limit_value_text(k, v):
+    """the same amount in the units the grammar knows: hours, or minutes for every third value (spelling choice)"""
+    mins = v * 60
+    if mins == int(mins) and (int(mins) // 30 + len(k)) % 3 == 0:
+        return "%dmin" % int(mins)
+    return "%sh" % v
+
+
 def limits_text(lim):
-    return "limits { " + " ".join("%s %sh" % (k, v) for k, v in lim.items()) + " }"
+    return "limits { " + " ".join("%s %s" % (k, limit_value_text(k, v)) for k, v in lim.items()) + " }"
 
 
 def render(m, refrnd=None, precrnd=None, extra_header=None, scenarios=None, trailer=""):
@@ -525,6 +547,8 @@ def render(m, refrnd=None, precrnd=None, extra_header=None, scenarios=None, trai
         L.append("  timingresolution %dmin" % m["res"])
     if m["alap"]:
         L.append("  scheduling alap")
+    for sp in spec_text(m.get("proj_hours") or []):
+        L.append("  " + sp)
     if m.get("timeformat"):
         L.append('  timeformat "%s"' % m["timeformat"])
     for line in (extra_header or []):
@@ -541,6 +565,8 @@ def render(m, refrnd=None, precrnd=None, extra_header=None, scenarios=None, trai
             L.append('shift %s "%s" {' % (sid, sid))
             for s in spec_text(specs):
                 L.append("  " + s)
+            for s, e in m.get("shift_leaves", {}).get(sid, []):
+                L.append("  leaves holiday %s" % (fmt_dt(s) if e is None else "%s - %s" % (fmt_dt(s), fmt_dt(e))))
             L.append("}")
     if not m.get("shifts_late"):
         emit_shifts()
@@ -574,6 +600,10 @@ def render(m, refrnd=None, precrnd=None, extra_header=None, scenarios=None, trai
         L.append('%sresource %s "%s" {' % (ind, g["id"], g["id"]))
         if g.get("limits"):
             L.append("%s  %s" % (ind, limits_text(g["limits"])))
+        for s, e in g.get("leaves", []):
+            L.append("%s  leaves annual %s" % (ind, fmt_dt(s) if e is None else "%s - %s" % (fmt_dt(s), fmt_dt(e))))
+        for s, e in g.get("vacs", []):
+            L.append("%s  vacation %s" % (ind, fmt_dt(s) if e is None else "%s - %s" % (fmt_dt(s), fmt_dt(e))))
         for sub in m.get("groups", []):
             if sub.get("parent") == g["id"]:
                 emit_group(sub, ind + "  ")
